@@ -178,7 +178,7 @@ PROPS = {
     ),
     'C02': dict(
         monitor=True,
-        streams=[chain_stream(8000, 300000, _nt_c02)],
+        streams=[chain_stream(8000, 300000, _nt_c02), chain_stream(3000, 100000, _nt_c02, name='ifaceout')],
         rule=CHAIN_RULE + 'C02 non-trivial: the chain binds and a wrapper receives values from inner() or invoke returns values',
         level_text='Theorems exec_refines_sem / chain_refines (Coq, no axioms): the machine\'s final array represents the reference up environment '
                    '(final function\'s returns overridden by each wrapper\'s own returns; the environment of the last inner() call; all zero when the '
